@@ -83,6 +83,8 @@ class Context:
             else:
                 construct = construct_key(node)
         inst = Instance(rule, name, where, bool(holds), message, examined, path, construct)
+        from .absint import GUESSED
+        guessed, GUESSED[:] = list(GUESSED), []
         if not inst.holds:
             for k in self._known:
                 if (
@@ -93,6 +95,11 @@ class Context:
                 ):
                     inst.known = k
                     break
+        if not inst.holds and inst.known is None and guessed:
+            # the runs behind this verdict went both ways at a branch the analysis could not decide: a problem found on such a
+            # run may belong to the way the real code never goes -- no verdict, rather than a violation
+            from .loader import Undecided
+            raise Undecided(f"{rule} [{name[:100]}] cannot be decided: {guessed[0]} could not be evaluated (both branches were followed, and one of them gives: {message[:160]})")
         self.instances.append(inst)
         return inst.holds
 
